@@ -106,6 +106,36 @@ package cors
 //@   loop 0 invariant icfg.allowedMethods === old(icfg.allowedMethods)
 //@   loop 0 decreases len(names) - rangeindex
 
+//@ func internalConfig.validateRequestHeaders
+//@   props C02 C04 C05 C06 C08 C15 C17
+//@   frozen E! F!util_Set
+//@   uses mem_empty
+//@   requires icfg != nil && icfg > 0
+//@   requires !icfg.asteriskReqHdrs && !icfg.allowAuthorization && len(icfg.allowedReqHdrs.elems) == 0 && SetInv(icfg.allowedReqHdrs) && icfg.acah == nil
+//@   assigns icfg.asteriskReqHdrs
+//@   assigns icfg.allowAuthorization
+//@   assigns icfg.allowedReqHdrs
+//@   assigns icfg.acah
+//@   assigns heap("E!Str")
+//@   ensures C04.request_headers: result == nil ==> (forall j :: 0 <= j && j < len(names) ==> OkReqHdr(old(names[j])))
+//@   ensures C05.request_headers_accept: (forall j :: 0 <= j && j < len(names) ==> OkReqHdr(old(names[j]))) ==> result == nil
+//@   ensures C15.asterisk_is_membership: result == nil ==> (icfg.asteriskReqHdrs == (exists j :: 0 <= j && j < len(names) && old(names[j]) == "*"))
+//@   ensures C15.auth_star_commute: result == nil ==> (icfg.allowAuthorization == (exists j :: 0 <= j && j < len(names) && old(names[j]) != "*" && headers.IsValid(old(names[j])) && util.ByteLowercase(old(names[j])) == "authorization"))
+//@   ensures C15.request_headers_are_a_set: result == nil && !icfg.asteriskReqHdrs ==> (forall x string :: Mem(icfg.allowedReqHdrs, x) == (exists j :: 0 <= j && j < len(names) && old(names[j]) != "*" && headers.IsValid(old(names[j])) && (util.ByteLowercase(old(names[j])) == "authorization" || (!headers.IsForbiddenRequestHeaderName(util.ByteLowercase(old(names[j]))) && !headers.IsProhibitedRequestHeaderName(util.ByteLowercase(old(names[j]))))) && x == util.ByteLowercase(old(names[j]))))
+//@   ensures result == nil ==> SetInv(icfg.allowedReqHdrs) && (len(icfg.allowedReqHdrs.elems) != 0 ==> icfg.acah != nil)
+//@   ensures result == nil && icfg.asteriskReqHdrs ==> len(icfg.allowedReqHdrs.elems) == 0 && icfg.acah == nil
+//@   onappend C05.request_header_error: dyntype(e, "*cfgerrors.UnacceptableHeaderNameError") && payload(e, "*cfgerrors.UnacceptableHeaderNameError") != nil && payload(e, "*cfgerrors.UnacceptableHeaderNameError").Value === names[rangeindex+1] && payload(e, "*cfgerrors.UnacceptableHeaderNameError").Type == "request" && (payload(e, "*cfgerrors.UnacceptableHeaderNameError").Reason == "invalid" || payload(e, "*cfgerrors.UnacceptableHeaderNameError").Reason == "forbidden" || payload(e, "*cfgerrors.UnacceptableHeaderNameError").Reason == "prohibited")
+//@   loop 0 invariant -1 <= rangeindex && rangeindex < len(names)
+//@   loop 0 invariant (len(errs) == 0) == (forall j :: 0 <= j && j <= rangeindex ==> OkReqHdr(old(names[j])))
+//@   loop 0 invariant forall k :: 0 <= k && k < len(errs) ==> errs[k] != nil
+//@   loop 0 invariant icfg.asteriskReqHdrs == (exists j :: 0 <= j && j <= rangeindex && old(names[j]) == "*")
+//@   loop 0 invariant icfg.allowAuthorization == (exists j :: 0 <= j && j <= rangeindex && old(names[j]) != "*" && headers.IsValid(old(names[j])) && util.ByteLowercase(old(names[j])) == "authorization")
+//@   loop 0 invariant !icfg.asteriskReqHdrs ==> (forall x string :: Mem(allowedHeaders, x) == (exists j :: 0 <= j && j <= rangeindex && old(names[j]) != "*" && headers.IsValid(old(names[j])) && (util.ByteLowercase(old(names[j])) == "authorization" || (!headers.IsForbiddenRequestHeaderName(util.ByteLowercase(old(names[j]))) && !headers.IsProhibitedRequestHeaderName(util.ByteLowercase(old(names[j]))))) && x == util.ByteLowercase(old(names[j]))))
+//@   loop 0 invariant SetInv(allowedHeaders) && (arr(allowedHeaders.elems) == 0 || isfresh(arr(allowedHeaders.elems)))
+//@   loop 0 invariant forall j :: 0 <= j && j < len(names) ==> names[j] === old(names[j])
+//@   loop 0 invariant icfg.allowedReqHdrs === old(icfg.allowedReqHdrs) && icfg.acah === old(icfg.acah) && icfg.credentialed == old(icfg.credentialed)
+//@   loop 0 decreases len(names) - rangeindex
+
 //@ func newInternalConfig
 //@   props C04 C05 C06 C08 C09 C15 C17
 //@   trusted TEMPORARY until L6 (validators) is under contract
